@@ -59,6 +59,7 @@ THEOREMS = [
     "MCHap.C18.pairBlanket_nodup",
     "MCHap.C18.pairPrior_of_listing",
     "MCHap.C18.pairPrior_of_repeated",
+    "MCHap.C18.ped_iteration_invariant",
 ]
 RULE = ("cases: generated pedigrees (founder, clone founder, duo with unknown parent, trio, half-sibs, selfing, two generations, mixed "
         "ploidy 2x x 4x -> 3x, unbalanced tau (1,3)/(3,1)/(1,2), clonal edges) over 2..4 haplotypes, lambda {0,.1,.5} on tau = 2 edges, "
